@@ -323,6 +323,7 @@ pub fn check_mi(c: &MiCase, st: &mut Stats) -> Result<(), String> {
 
 pub fn run(ctx: &Ctx) -> RunResult {
     let mut rr = RunResult::new(RULE);
+    rr.level = "fault_enumeration".into();
     rr.assumptions = vec![
         "'accepted as authenticated' = validated decode succeeds and returns the integrity attribute, or the attribute's validate() over get_input_text returns true".into(),
         "cryptographic collisions are ignored".into(),
